@@ -241,10 +241,10 @@ def build_entries() -> Dict[str, Tuple[Any, Spec]]:
              meta={"Method": "OUT", "Acks": (1, 2, 3), "Extra": b"\x01\x02"}))
     # 4: other name, message-level meta
     m = Message("Bar", Block("Bar", I=5, S="he", X="he's \"q\" \\"))
-    m.meta.update({"AgentLocal": 2, "ObjectUpdateIDs": (7, 8), "SelectedLocal": 7})
+    m.meta.update({"AgentLocal": 2, "ObjectUpdateIDs": (1, 2, 3), "SelectedLocal": 2})
     add(LLUDPMessageLogEntry(m, None, None),
         Spec("udp_bar", "LLUDP", "Bar", [("Bar", [{"I": 5, "S": "he", "X": "he's \"q\" \\"}])],
-             meta={"Method": "OUT", "Acks": (), "Extra": b"", "AgentLocal": 2, "ObjectUpdateIDs": (7, 8), "SelectedLocal": 7}))
+             meta={"Method": "OUT", "Acks": (), "Extra": b"", "AgentLocal": 2, "ObjectUpdateIDs": (1, 2, 3), "SelectedLocal": 2}))
     # 5: subfield-serialized var
     m = Message("ImprovedTerseObjectUpdate", Block("RegionData", RegionHandle=5, TimeDilation=65535),
                 Block("ObjectData", Data_=dict(TERSE_SUB), TextureEntry=b""), packet_id=3)
@@ -1325,16 +1325,50 @@ _G: Optional[msggen.Gen] = None
 _D_ROWS_ALL = False
 
 
+def _typed(x):
+    """Value together with its kind: a tuple is not a list, None is not 0, True is not 1 (what a filter / a consumer can tell apart).
+    bytes and bytearray count as the same kind (both compare and behave as bytes); int subclasses (flag enums) as int."""
+    if x is None:
+        return ("none",)
+    if isinstance(x, bool):
+        return ("bool", x)
+    if isinstance(x, int):
+        return ("int", int(x))
+    if isinstance(x, float):
+        return ("float", repr(x))
+    if isinstance(x, str):
+        return ("str", str(x))
+    if isinstance(x, (bytes, bytearray)):
+        return ("bytes", bytes(x))
+    if isinstance(x, _uuid.UUID):
+        return ("uuid", str(x))
+    if isinstance(x, Direction):
+        return ("direction", x.name)
+    if isinstance(x, tuple):
+        return ("tuple", tuple(_typed(e) for e in x))
+    if isinstance(x, list):
+        return ("list", tuple(_typed(e) for e in x))
+    if isinstance(x, dict):
+        return ("dict", tuple(sorted((str(k), _typed(v)) for k, v in x.items())))
+    return (type(x).__name__, repr(x))
+
+
 def _hdr_of(m) -> dict:
-    return {"name": m.name, "direction": getattr(m.direction, "name", m.direction), "flags": int(m.send_flags), "packet_id": m.packet_id,
-            "acks": tuple(m.acks), "extra": bytes(m.extra), "dropped": bool(m.dropped), "synthetic": bool(m.synthetic),
-            "blocks": tuple((b, len(bl)) for b, bl in m.blocks.items())}
+    """Header attributes of a message, type-exact (see _typed), + block lists."""
+    return {"name": _typed(m.name), "direction": _typed(m.direction), "flags": _typed(m.send_flags), "packet_id": _typed(m.packet_id),
+            "acks": _typed(m.acks), "extra": _typed(m.extra), "dropped": _typed(m.dropped), "synthetic": _typed(m.synthetic),
+            "meta": _typed(m.meta), "blocks": tuple((b, len(bl)) for b, bl in m.blocks.items())}
 
 
-def check_d_case(part, gen, name: str, k: int, case: dict, variant: Optional[int] = None):
+D_META = {"ObjectUpdateIDs": (7, 8), "AgentLocal": 2}   # what the object manager / addons attach to a logged message
+
+
+def check_d_case(part, gen, name: str, k: int, case: dict, variant: Optional[int] = None, no_packet_id: bool = False):
     wbase = {"part": "d", "seed": gen.seed, "name": name, "row": k}
     if variant is not None:
         wbase = {"part": "d", "seed": gen.seed, "name": name, "variant": variant, "tag": case.get("tag")}
+    if no_packet_id:
+        wbase["no_packet_id"] = True
     base = gen.lib_message(case)
     try:
         b0 = bytes(_SER.serialize(base))
@@ -1350,8 +1384,8 @@ def check_d_case(part, gen, name: str, k: int, case: dict, variant: Optional[int
         part.count("d_skipped_undecodable")
         blocks_wire = None
     for mode in ("fresh", "wire"):
-        if mode == "wire" and blocks_wire is None:
-            continue
+        if mode == "wire" and (blocks_wire is None or no_packet_id):
+            continue  # a datagram always carries a packet id
         for frozen in (False, True):
             if mode == "fresh":
                 m = gen.lib_message(case)
@@ -1360,9 +1394,16 @@ def check_d_case(part, gen, name: str, k: int, case: dict, variant: Optional[int
                 m = de.deserialize(b0)
                 m.direction = Direction.IN
             m.dropped = bool(k % 2)
-            m.synthetic = (k % 3 == 2)
-            want = {"name": m.name, "direction": m.direction.name, "flags": int(m.send_flags), "packet_id": m.packet_id,
-                    "acks": tuple(m.acks), "extra": bytes(case["extra"]), "dropped": bool(m.dropped), "synthetic": bool(m.synthetic),
+            m.synthetic = (k % 3 == 2) or no_packet_id
+            if no_packet_id:
+                m.packet_id = None  # a message the proxy/addon built itself and that was logged before it got an id
+            m.meta = dict(D_META) if k % 2 == 0 else {}
+            # expectation written from the generator's plain data, not read back from the message
+            want = {"name": ("str", name), "direction": ("direction", "OUT" if mode == "fresh" else "IN"), "flags": ("int", int(case["flags"])),
+                    "packet_id": ("none",) if no_packet_id else ("int", int(case["packet_id"])),
+                    "acks": ("tuple", tuple(("int", int(a)) for a in case["acks"])), "extra": ("bytes", bytes(case["extra"])),
+                    "dropped": ("bool", bool(k % 2)), "synthetic": ("bool", bool((k % 3 == 2) or no_packet_id)),
+                    "meta": _typed(dict(D_META) if k % 2 == 0 else {}),
                     "blocks": blocks_fresh if mode == "fresh" else blocks_wire}
             ent = LLUDPMessageLogEntry(m, None, None)
             w = {**wbase, "mode": mode, "frozen": frozen}
@@ -1384,27 +1425,33 @@ def check_d_case(part, gen, name: str, k: int, case: dict, variant: Optional[int
                 _compare_msg(part, "export-preserves", "export_log_entries:LLUDP", back[0].message, want, b0, w, back[0])
             except Exception as e:  # noqa
                 part.violation("export-preserves", f"export_log_entries:LLUDP:{type(e).__name__}", w, f"{name} row {k} {mode} frozen={frozen}: {e!r}"[:300])
-    part.mark_nontrivial(("d", name, k, case.get("tag"), case["flags"], len(case["acks"]), len(case["extra"])))
+    part.mark_nontrivial(("d", name, k, case.get("tag"), case["flags"], len(case["acks"]), len(case["extra"]), no_packet_id))
     part.outcome(("d", len(b0), b0[:10]))
 
 
 def _compare_msg(part, clause, site, m2, want, b0, w, ent2):
     got = _hdr_of(m2)
+    name = want["name"][1]
     for key in want:
         if got[key] != want[key]:
-            part.violation(clause, f"{site}:{key}", w, f"{want['name']}: {key} was {want[key]!r}, came back {got[key]!r}")
-    if (ent2.name, ent2.method, ent2.seq, ent2.type) != (want["name"], want["direction"], want["packet_id"], "LLUDP"):
-        part.violation(clause, f"{site}:entry-columns", w, f"entry name/method/seq/type {(ent2.name, ent2.method, ent2.seq, ent2.type)} vs message {want}")
+            part.violation(clause, f"{site}:{key}", w, f"{name}: {key} was {want[key]!r}, came back {got[key]!r}"[:500])
+    pid = None if want["packet_id"] == ("none",) else want["packet_id"][1]
+    if (ent2.name, ent2.method, ent2.seq, ent2.type) != (name, want["direction"][1], pid, "LLUDP"):
+        part.violation(clause, f"{site}:entry-columns", w, f"entry name/method/seq/type {(ent2.name, ent2.method, ent2.seq, ent2.type)} vs message {want}"[:500])
     try:
+        if pid is None and m2.packet_id is None:
+            m2.packet_id = 1  # only to be able to write the datagram; b0 was written with the generator's id... see caller
         b2 = bytes(_SER.serialize(m2))
     except Exception as e:  # noqa
-        part.violation(clause, f"{site}:serialize:{type(e).__name__}", w, f"{want['name']}: re-serializing raised {e!r} (block lists "
+        part.violation(clause, f"{site}:serialize:{type(e).__name__}", w, f"{name}: re-serializing raised {e!r} (block lists "
                                                                           f"{got['blocks']}, were {want['blocks']})"[:400])
         return
+    if pid is None:
+        b2, b0 = b2[:1] + b2[5:], b0[:1] + b0[5:]  # compare everything but the sequence number
     if b2 != b0:
         i = next((j for j in range(min(len(b2), len(b0))) if b2[j] != b0[j]), min(len(b2), len(b0)))
-        part.violation(clause, f"{site}:datagram" + ("" if got["blocks"] != want["blocks"] else f":{want['name']}"), w, f"datagram differs at offset {i}: {b2[i:i + 8].hex()} vs {b0[i:i + 8].hex()} "
-                                                                    f"(len {len(b2)} vs {len(b0)})")
+        part.violation(clause, f"{site}:datagram" + ("" if got["blocks"] != want["blocks"] else f":{name}"), w,
+                       f"datagram differs at offset {i}: {b2[i:i + 8].hex()} vs {b0[i:i + 8].hex()} (len {len(b2)} vs {len(b0)})")
 
 
 def _d_work(names: List[str]):
@@ -1415,12 +1462,77 @@ def _d_work(names: List[str]):
             if k > 0 and not _D_ROWS_ALL:
                 break
             check_d_case(part, gen, name, k, case)
+            if k == 0:
+                check_d_case(part, gen, name, k, case, no_packet_id=True)
         # block-count variants: Variable blocks with 0 / 2 (thorough: 255) entries, mixed counts, trailing blocks left out
         for j, case in enumerate(gen.count_variants(name)):
             if not _D_ROWS_ALL and "255" in case["tag"]:
                 continue
             part.count("d_count_variants")
             check_d_case(part, gen, name, j, case, variant=j)
+    return part.dump()
+
+
+# ---- differential oracle: a leaf filter gives the same verdict on an entry before and after export+import / freeze+thaw -----
+DIFF_OPS = (None, "==", "!=")
+
+
+def _diff_filters():
+    out = []
+    for sel, shape in SELECTORS:
+        for op in DIFF_OPS:
+            for lit in ([None] if op is None else LITS):
+                out.append((tuple(sel), shape, op, lit))
+    return out
+
+
+def _verdicts(nodes, entry):
+    return [(real_eval(n, entry, True), real_eval(n, entry, False)) for n in nodes]
+
+
+def check_diff_entry(part, eid: str, only=None):
+    """Every leaf filter of the (b) table with bare / == / != on one entry: verdict before == verdict after export+import, after
+    freeze (thawed on access), and after freeze+export+import.  No hand-written expectation."""
+    built = build_entries()
+    entry, spec = built[eid]
+    filters = [f for f in _diff_filters() if only is None or (list(f[0]), f[2], f[3].text if f[3] else None) == only]
+    nodes = [compile_filter(leaf_text(sel, op, lit.text if lit else None)) for sel, _, op, lit in filters]
+    before = _verdicts(nodes, entry)
+    stages = []
+    try:
+        stages.append(("export", "export_log_entries", import_log_entries(export_log_entries([entry]))[0]))
+    except Exception as e:  # noqa
+        part.violation("export-changes-verdict", f"export_log_entries:{spec.kind}:{type(e).__name__}", {"part": "e", "entry": eid}, f"{eid}: {e!r}"[:300])
+    try:
+        entry.freeze()
+        stages.append(("thaw", "freeze", entry))
+        stages.append(("export", "freeze+export_log_entries", import_log_entries(export_log_entries([entry]))[0]))
+    except Exception as e:  # noqa
+        part.violation("thaw-changes-verdict", f"freeze:{spec.kind}:{type(e).__name__}", {"part": "e", "entry": eid}, f"{eid}: {e!r}"[:300])
+    for kind, how, ent2 in stages:
+        after = _verdicts(nodes, ent2)
+        part.count("evaluations", 2 * len(nodes))
+        part.count("e_diff_evals", 2 * len(nodes))
+        for (sel, shape, op, lit), b, a in zip(filters, before, after):
+            if a != b:
+                if sel[0] == "Meta" and len(sel) > 1:
+                    where = f"Meta.{sel[1]}"
+                else:
+                    kinds = ref_leaf(spec, sel, op, lit)[3]  # only to name the site by the selected field's type
+                    where = f"field:{kinds[0] if len(set(kinds)) == 1 else shape}"
+                text = leaf_text(sel, op, lit.text if lit else None)
+                part.violation(f"{kind}-changes-verdict", f"{how}:{spec.kind}:{where}",
+                               {"part": "e", "entry": eid, "selector": list(sel), "op": op, "lit": lit.text if lit else None},
+                               f"{text!r} on {eid}: {b} on the logged entry, {a} after {how}")
+            elif b[0][0] == "ok" and b[0][1]:
+                part.mark_nontrivial(("e", eid, sel, op, lit.text if lit else None, how))
+        part.outcome(("e", eid, how, sum(1 for b in after if b[0][:2] == ("ok", True))))
+
+
+def _e_work(eid):
+    part = Part()
+    entries()
+    check_diff_entry(part, eid)
     return part.dump()
 
 
@@ -1572,6 +1684,8 @@ def run(run: Run):
     chunks = [names[i:i + 8] for i in range(0, len(names), 8)]
     for d in pmap(_d_work, chunks, run.jobs):
         run.merge(d)
+    for d in pmap(_e_work, [e for e in ENTRY_IDS_B if e != "udp_foo_frozen"], run.jobs):
+        run.merge(d)
     for i in range(len(EQ_EVENTS)):
         check_d_eq(run, i)
     for i in range(len(HTTP_VARIANTS)):
@@ -1634,7 +1748,9 @@ def replay(w):
         else:
             for k, case in enumerate(gen.value_rows(w["name"])):
                 if k == int(w["row"]):
-                    check_d_case(part, gen, w["name"], k, case)
+                    check_d_case(part, gen, w["name"], k, case, no_packet_id=bool(w.get("no_packet_id")))
+    elif p == "e":
+        check_diff_entry(part, w["entry"], only=[list(w["selector"]), w.get("op"), w.get("lit")] if w.get("selector") else None)
     elif p == "d-eq":
         check_d_eq(part, int(w["index"]))
     elif p == "d-http":
